@@ -7,14 +7,11 @@
 #include "config.h"
 #include "common/util.h"
 #include "common/sched.h"
+#include "common/futex_interpose.h"
 
 #include <chrono>
 #include <memory>
 #include <unistd.h>
-#include <dlfcn.h>
-#include <stdarg.h>
-#include <sys/syscall.h>
-#include <linux/futex.h>
 
 #include "torrent/exceptions.h"
 #include "torrent/system/callbacks.h"
@@ -23,26 +20,6 @@
 
 using namespace ltv;
 using namespace std::chrono_literals;
-
-// std::atomic<uint32_t>::wait / notify_all (libstdc++ <bits/atomic_wait.h>, compiled into the library objects) end in
-// syscall(SYS_futex, addr, FUTEX_WAIT_PRIVATE / FUTEX_WAKE_PRIVATE, ...). This definition takes precedence over libc's
-// for every reference linked into this executable, so the controller SEES each real notify and each real block:
-// a waiter is parked as blocked until some thread actually notifies its address (sched.h, futex emulation).
-extern "C" __attribute__((no_sanitize_address)) long syscall(long n, ...) noexcept {
-  va_list ap;
-  va_start(ap, n);
-  long a[6];
-  for (auto& x : a) x = va_arg(ap, long);
-  va_end(ap);
-  if (n == SYS_futex) {
-    int  op = static_cast<int>(a[1]) & FUTEX_CMD_MASK;
-    long ret;
-    if (op == FUTEX_WAIT && Controller::futex_wait(reinterpret_cast<const void*>(a[0]), static_cast<uint32_t>(a[2]), ret)) return ret;
-    if (op == FUTEX_WAKE && Controller::futex_wake(reinterpret_cast<const void*>(a[0]), ret)) return ret;
-  }
-  static auto real = reinterpret_cast<long (*)(long, ...)>(dlsym(RTLD_NEXT, "syscall"));
-  return real(n, a[0], a[1], a[2], a[3], a[4], a[5]);
-}
 
 namespace {
 
@@ -218,9 +195,13 @@ std::string run_case(const std::string& line) {
 
   std::string out = "S";
   std::string final_words;
+  SchedWatchdog wd(20000, [&line] {
+    std::cout << "ERR:hang case did not complete within 20 s (a thread is blocked outside the scheduler's control)" << std::endl;
+    _exit(3);
+  });
   {
     Controller ctrl;
-    ctrl.futex_emulation = true;
+    ctrl.futex_emulation = getenv("LTV_NO_FUTEX_EMU") == nullptr;   // the switch exists to exercise the hang watchdog path
     ctrl.after_grant = [&cs](int i) {
       for (auto& e : cs.pending[i]) cs.step_events.push_back(e);
       cs.pending[i].clear();
